@@ -14,6 +14,9 @@ GOOD = [FIG55,
         mk_game([P2, PR, PR, PR, PR], [[("x", 1), ("y", 2)], [(0.25, 3), (0.75, 4)], [(0.5, 3), (0.5, 4)], [(1, 3)], [(1, 4)]], [0, 1, 5, 0, 0], [3]),
         mk_game([PR, P1, PR, PR, PR, PR], [[(0.5, 1), (0.5, 5)], [("a", 2), ("b", 3)], [(1, 4)], [(0.5, 4), (0.5, 5)], [(1, 4)], [(1, 5)]], [1, 0, 3, 1, 0, 0], [4]),
         mk_game([PR, P1, PR, PR, PR, PR], [[(0.5, 1), (0.5, 5)], [("a", 2), ("b", 3)], [(1, 4)], [(0.5, 4), (0.5, 5)], [(1, 4)], [(1, 5)]], [1, 0, 3, 1, 0, 0], [5])]
+# states nobody leads to (a chance state, a Player 2 state) although every state reaches the target: pruning empties them, not pruning keeps them
+GOOD += [mk_game([P1, PR, PR, PR], [[("go", 1)], [(1, 2)], [(1, 2)], [(1, 2)]], [1, 2, 0, 5], [2]),
+         mk_game([P1, PR, PR, PR, P2], [[("l", 1), ("r", 2)], [(0.5, 1), (0.5, 3)], [(1, 3)], [(1, 3)], [("x", 1), ("y", 2)]], [0, 3, 1, 0, 4], [3])]
 BAD = [mk_game([PR, PR, PR], [[(1, 1)], [(1, 2)], [(1, 2)]], [0, -1, 0], [2]),                       # malformed
        mk_game([P2, PR, PR], [[("a", 1), ("b", 2)], [(1, 1)], [(1, 2)]], [0, 0, 0], [2]),            # no solution: Player 2 forces away
        mk_game([PR, PR, PR], [[(1, 1)], [(1, 1)], [(1, 2)]], [0, 0, 0], [2]),                        # no solution: cannot reach
@@ -29,6 +32,8 @@ def gen_batches(rng, tier):
     yield dict(names=['good1', 'bad', 'good2'], games=[GOOD[1], BAD[1], GOOD[2]])
     yield dict(names=['good1', 'good2', 'bad'], games=[GOOD[1], GOOD[2], BAD[2]])
     yield dict(names=['n1', 'n2', 'n3', 'n4'], games=[BAD[3], BAD[1], GOOD[0], BAD[0]])
+    yield dict(names=['spare', 'spare_p2'], games=[GOOD[5], GOOD[6]])
+    yield dict(names=['spare_p2', 'nosol', 'g55'], games=[GOOD[6], BAD[2], GOOD[0]])
     for i in range(n):
         k = rng.randint(1, 5)
         gs = [copy.deepcopy(rng.choice(GOOD + BAD + [lib.random_game(rng, rng.randint(3, 5))])) for _ in range(k)]
